@@ -107,12 +107,17 @@ def configs(tier):
     add(4, 2, split=48)
     add(3, 1, crowd=True)
     add(3, 2, marker='real')
+    add(2, 4)
+    add(2, 5)
+    add(3, 4, split=32)
     add(3, 2, marker='real', container='ndarray', split=32)
     add(3, 1, crowd=True, marker='real', container='ndarray')
     if tier == 'thorough':
         add(5, 2, split=96)
         add(4, 3, split=64)
         add(3, 3)
+        add(2, 6)
+        add(3, 5, split=48)
         add(5, 1, split=48)
         add(6, 1, split=96)
         add(3, 2, crowd=True)
